@@ -36,6 +36,12 @@ def rand_name(rng):
 	if style == 6:
 		return ''
 	if style == 7:
+		if rng.randrange(2):
+			# a valid name with one control / whitespace character at the end, at the start or inside (regex anchors and strip() slips)
+			base = rng.choice(alphabet) + ''.join(rng.choice(alphabet + '_-') for _ in range(rng.randrange(0, 6)))
+			extra = rng.choice(['\n', '\r', '\t', ' ', '\x0b', '\x0c', '\x00', '\x1f', '\x7f', '\u2028', '\n\n', '\r\n'])
+			position = rng.choice([len(base), len(base), 0, rng.randrange(len(base) + 1)])
+			return base[:position] + extra + base[position:]
 		return rng.choice('_-') + rng.choice(alphabet)
 	if style == 8:
 		return rng.choice(alphabet) + rng.choice('AZ@`{/: .ééа\U0001F600') + rng.choice(alphabet)
@@ -60,6 +66,13 @@ def gen_cases(rng, tier):
 		cases.append({'kind': 'path', 'fqn': '.'.join(parts)})
 	for i in range(n):
 		cases.append({'kind': 'validname', 'name': rand_name(rng)})
+	# deterministic boundary corpus: one control / whitespace character around an otherwise valid name (regex-anchor and strip() slips)
+	for extra in ['\n', '\r', '\t', ' ', '\x0b', '\x0c', '\x00', '\x1f', '\x7f', '\u2028', '\n\n', '\r\n', '.', 'A', '_', '-']:
+		for name in ('ab' + extra, extra + 'ab', 'a' + extra + 'b', 'a' + extra):
+			cases.append({'kind': 'validname', 'name': name})
+		cases.append({'kind': 'path', 'fqn': 'foo.bar' + extra})
+		cases.append({'kind': 'path', 'fqn': 'foo' + extra + '.bar'})
+		cases.append({'kind': 'path', 'fqn': extra + 'foo.bar'})
 	for i in range(n // 2):
 		seed = ''.join(chr(rng.choice([rng.randrange(32, 127), rng.randrange(160, 0x800)])) for _ in range(rng.randrange(0, 20))).replace('"', 'q')
 		cases.append({'kind': 'mdkey', 'seed': seed})
